@@ -10,4 +10,4 @@ for c in "$@"; do
   VERIF_REPO=$S ./check $c > seeded/$NAME/check_$c.after.log 2>&1; echo "exit=$?" >> seeded/$NAME/check_$c.after.log
   echo "$NAME $c: $(tail -1 seeded/$NAME/check_$c.after.log) $(grep -E '^VIOLATION' seeded/$NAME/check_$c.after.log | head -3 | cut -c1-150 | tr '\n' ' ')"
 done
-rm -rf $S
+rm -rf $S; rm -f /verif/.cache/harness-*.test
